@@ -54,7 +54,7 @@ func init() {
 		ChildSetup:  c02Setup,
 		CaseTimeout: 120 * time.Second,
 		Require: func(tier string) map[string]int64 {
-			return map[string]int64{"frames_parsed": 5000, "messages_reconstructed": 2000, "compressed_messages_inflated": 300, "close_frames_checked": 100, "masked_frames": 1000, "writer_closes_that_gave_up_with_the_connection_alive": 8, "close_calls_with_unsendable_multibyte_reason": 50}
+			return map[string]int64{"frames_parsed": 5000, "messages_reconstructed": 2000, "compressed_messages_inflated": 300, "close_frames_checked": 100, "masked_frames": 1000, "writer_closes_that_gave_up_with_the_connection_alive": 8, "close_calls_with_unsendable_multibyte_reason": 50, "connections_with_more_than_1000_operations": 8}
 		},
 		Assumptions: []string{
 			"the harness's wire package (parser, masking, inflater built on compress/flate) is the reference decoder; thorough tier adds Python zlib as an unrelated inflater",
@@ -150,6 +150,38 @@ func c02Gen(tier string, seed int64) []fw.Case {
 		d.WriteMax = []int{0, 0, 1, 7, 1000}[rng.Intn(5)]
 		dd := d
 		cases = append(cases, fw.Case{Name: fmt.Sprintf("%s/%s/thr=%d/ops=%d", d.Role, paramsKey(d.Params), d.Threshold, len(d.Ops)), Desc: dd, Run: func(r *fw.R) { c02Run(r, dd, tier) }})
+	}
+	// long histories: one connection carries a thousand or more small operations (per-connection counters,
+	// the mask-key source, the compressor's window and the write buffer go through many rounds)
+	for rep := 0; rep < tierPick(tier, 1, 4); rep++ {
+		for i := 0; i < 2*len(allParams); i++ {
+			d := c02Desc{Seed: rng.U64(), Role: bothRoles[i%2], Params: allParams[(i/2)%len(allParams)], CloseCode: 1000}
+			if d.Params.Deflate {
+				d.Threshold = []int{0, 1, 100}[rng.Intn(3)]
+			}
+			nops := 1000 + rng.Intn(800)
+			for j := 0; j < nops; j++ {
+				op := c02Op{Text: rng.Bool(), Content: payloadKinds[rng.Intn(len(payloadKinds))], Size: rng.Intn(300)}
+				switch x := rng.Intn(20); {
+				case x < 10:
+					op.Kind = "write"
+				case x < 18:
+					op.Kind = "writer"
+					op.Chunk = []chunking{{"one", 0}, {"fixed", 127}, {"random", 0}, {"empty-interleaved", 0}, {"close-only", 0}}[rng.Intn(5)]
+					if rng.Intn(10) == 0 {
+						op.Size = 3000 + rng.Intn(3000)
+					}
+					if op.Chunk.Kind == "close-only" {
+						op.Size = 0
+					}
+				default:
+					op.Kind = "ping"
+				}
+				d.Ops = append(d.Ops, op)
+			}
+			dd := d
+			cases = append(cases, fw.Case{Name: fmt.Sprintf("long/%s/%s/thr=%d/ops=%d", d.Role, paramsKey(d.Params), d.Threshold, len(d.Ops)), Desc: dd, Run: func(r *fw.R) { c02Run(r, dd, tier) }})
+		}
 	}
 	for i := 0; i < tierPick(tier, 16, 160); i++ {
 		d := c02Desc{Kind: "failed-writer-close", Seed: rng.U64(), Role: bothRoles[i%2], Params: allParams[(i/2)%len(allParams)]}
@@ -304,8 +336,17 @@ func c02Run(r *fw.R, d c02Desc, tier string) {
 	var sent []sentMsg
 	var hist [][]byte
 	pings := 0
-	r.SetSample(d)
+	if len(d.Ops) > 12 {
+		short := d
+		short.Ops = d.Ops[:12]
+		r.SetSample(map[string]any{"case_with_the_first_12_operations": short, "operations": len(d.Ops)})
+	} else {
+		r.SetSample(d)
+	}
 	for i, op := range d.Ops {
+		if i == 1000 {
+			r.Count("connections_with_more_than_1000_operations", 1)
+		}
 		switch op.Kind {
 		case "hunt":
 			// Stream messages of tuned entropy until the compressor has handed exactly ONE data frame of a
